@@ -41,25 +41,32 @@ Section Judge.
     | _ => d_key d
     end.
 
-  Definition out (fx : bool) : list sym := find_all_symbol fx st.
+  Definition out (fx : fixes) : list sym := find_all_symbol fx st.
 
-  Definition explain (d : decl) : cls :=
-    if is_covered (judge_decl lens (entries_of (out true)) d) then ClsRewrite
-    else if (match d_kind d with DLocal => Nat.ltb 1 (count_local (d_key d) ds) | _ => false end) then ClsShadowed
-    else if assigned_func_entry d (out true) then ClsAssignedFunc
+  Definition base_declared (d : decl) : bool :=
+    existsb (fun d0 => match d_kind d0 with DFunc => false | _ => beq_bytes (d_key d0) (base_of d) end) ds.
+
+  (* the cause of a deviation of variant fx: covered by the fully repaired outline = one of the repaired defects
+     (which one: the tests below, in this order), otherwise one of the defects that are still open *)
+  Definition explain (fx : fixes) (d : decl) : cls :=
+    if is_covered (judge_decl lens (entries_of (out fx_all)) d) then
+      if (match d_kind d with DLocal => Nat.ltb 1 (count_local (d_key d) ds) | _ => false end) then ClsShadowed
+      else if assigned_func_entry d (out fx) then ClsAssignedFunc
+      else if (match d_kind d with DFunc => negb (base_declared d) | _ => false end) then ClsMemberUndeclared
+      else ClsRewrite
     else if (match d_kind d with DLocal => false | _ => existsb (beq_bytes (base_of d)) foreign end) then ClsForeign
     else match d_kind d with
          | DFunc =>
-           (* the table is declared neither as a top-level local nor as a global of this file *)
-           if existsb (fun d0 => match d_kind d0 with DFunc => false | _ => beq_bytes (d_key d0) (base_of d) end) ds
-           then ClsMemberLost else ClsMemberUndeclared
+           (* before fixes/C19-member-of-undeclared.diff: the table is declared neither as a top-level local nor as a
+              global of this file *)
+           if base_declared d || fx_undecl fx then ClsMemberLost else ClsMemberUndeclared
          | _ => ClsUnexplained
          end.
 
   (* verdict of the outline of variant fx, with the cause of each deviation *)
-  Definition judge_all (fx : bool) : list (decl * verdict * option cls) :=
+  Definition judge_all (fx : fixes) : list (decl * verdict * option cls) :=
     map (fun d => let v := judge_decl lens (entries_of (out fx)) d in
-                  (d, v, if is_covered v then None else Some (explain d))) ds.
+                  (d, v, if is_covered v then None else Some (explain fx d))) ds.
 End Judge.
 
 (* workspace/symbol: every file's DGlobal / DFunc declaration named q must be answered *)
